@@ -149,8 +149,10 @@ def pod_len(shape, sizes):
 
 def gen_case(rng, probes=False):
     k = rng.random()
-    if k < 0.07:
+    if k < 0.04:
         return gen_sparse(rng, probes)
+    if k < 0.10:
+        return gen_script(rng, probes)
     if k < 0.27:
         # blocked-only members
         op = rng.choice(list(BLK_OPS))
@@ -228,6 +230,46 @@ def gen_sparse(rng, probes):
     return ("%s %s%s %d %d %s" % (head, sub, extra, size, nw, " ".join(writes))).strip()
 
 
+def gen_script(rng, probes):
+    """svs: interleaved writes / reads / format / used_elements / min-max members on one sparse vector"""
+    b = rng.choice([0, 0, 1, 2, 3])
+    w = max(b, 1)
+    big = rng.random() < 0.004
+    size = rng.choice([1001, 1003, 1500]) if big else rng.choice([1, 2, 3, 5, 8, 9, 17, 40])
+    n = rng.choice([1001, 1002, 1005]) if big else rng.choice([1, 2, 3, 5, 8, 13, size, size + 3, 2 * size + 1, 3 * size + 2])
+    order = rng.choice(["random", "random", "desc", "asc", "same", "two"])
+    steps = []
+    pool = rng.sample(range(size), min(size, 2))
+    for k in range(n):
+        r = rng.random()
+        if big and k < 1000:
+            r = 0.0      # fill the first allocation, the interesting calls follow the reallocation
+        if r < 0.6:
+            if order == "random":
+                idx = rng.randrange(size)
+            elif order == "desc":
+                idx = (size - 1 - k) % size
+            elif order == "asc":
+                idx = k % size
+            elif order == "same":
+                idx = pool[0]
+            else:
+                idx = rng.choice(pool)
+            vals = gen_data(rng, w, nonzero=(rng.random() < 0.8))
+            steps.append("w %d %s" % (idx, " ".join(vlib.frac_str(v) for v in vals)))
+        elif r < 0.85:
+            steps.append("r %d" % rng.randrange(size))
+        elif r < 0.90:
+            steps.append("u")
+        elif r < 0.93:
+            steps.append("f %s" % vlib.frac_str(gen_scalar(rng)))
+        elif probes and not big:
+            steps.append("m %s" % rng.choice(["maxabs", "minabs", "max", "min"]))
+        else:
+            steps.append("r %d" % rng.randrange(size))
+    return "svs %d %d %d %s" % (b, size, len(steps), " ".join(steps))
+
+
 def gen_cases(rng, count, probes=False):
     return [gen_case(rng, probes) for _ in range(count)]
 
@@ -266,6 +308,7 @@ PROBE_CORPUS = [
     "svb 2 maxabs 4 1 1 7/1 8/1",
     "maxabs a 0 0 T 2 D B 2 2 1 0 1 -5/1",
     "max a 0 0 P 2 D 2 2 0 2 1/1 3/1",
+    "svs 0 5 4 w 1 2/1 w 3 9/1 m maxabs m min",
 ]
 
 
@@ -304,12 +347,32 @@ class Tk:
 
 
 def is_abnormal(out):
-    return out.split(":")[0] in ("ABORT", "EXC", "TIMEOUT", "SIGNAL", "SANITIZER", "EXIT") or out.startswith("BAD-OP")
+    return out.split(":")[0] in ("ABORT", "EXC", "TIMEOUT", "SIGNAL", "SANITIZER", "EXIT", "UNDEF") or out.startswith("BAD-OP")
 
 
 def parse_case(case):
     c = Tk(case)
     op = c.tok()
+    if op == "svs":
+        b, size, n = c.nat(), c.nat(), c.nat()
+        w = max(b, 1)
+        steps = []
+        for _ in range(n):
+            what = c.tok()
+            if what == "w":
+                idx = c.nat()
+                steps.append(("w", idx, [c.frac() for _ in range(w)]))
+            elif what == "r":
+                steps.append(("r", c.nat()))
+            elif what == "f":
+                steps.append(("f", c.frac()))
+            elif what == "u":
+                steps.append(("u",))
+            elif what == "m":
+                steps.append(("m", c.tok()))
+            else:
+                raise ValueError(what)
+        return {"op": op, "b": b, "size": size, "steps": steps, "sub": "script"}
     if op in ("sv", "svb"):
         b = c.nat() if op == "svb" else 0
         sub = c.tok()
@@ -370,6 +433,8 @@ def classify(case):
     """'main' | 'undefined' (operation not defined on this input) | 'probe1..4' (known FEAT defects)"""
     p = parse_case(case)
     op = p["op"]
+    if op == "svs":
+        return "probe1" if any(st[0] == "m" for st in p["steps"]) else "main"
     if op in ("sv", "svb"):
         if p["sub"] in ("maxabs", "minabs", "max", "min"):
             return "probe1"
@@ -401,6 +466,41 @@ def oracle(case, out):
         res, objs, used = parse_out(out)
     except Exception as e:
         return "unparsable implementation output (%s): %s" % (e, out[:200])
+    if op == "svs":
+        w = max(p["b"], 1)
+        zero = [Fraction(0)] * w
+        m = {}
+        exp = []
+        mm = []        # positions of min/max results
+        for st in p["steps"]:
+            if st[0] == "w":
+                m[st[1]] = list(st[2])
+            elif st[0] == "r":
+                exp += m.get(st[1], zero)
+            elif st[0] == "f":
+                for k in m:
+                    m[k] = [st[1]] * w
+            elif st[0] == "u":
+                exp.append(Fraction(len(m)))
+            else:
+                flat = [v for i in range(p["size"]) for v in m.get(i, zero)]
+                mm.append(len(exp))
+                exp.append({"maxabs": max(abs(v) for v in flat), "minabs": min(abs(v) for v in flat),
+                            "max": max(flat), "min": min(flat)}[st[1]])
+        flat = [v for i in range(p["size"]) for v in m.get(i, zero)]
+        if len(objs) != 1 or objs[0] != flat:
+            return "sparse vector read-out differs from the last-write-wins expansion"
+        if used != len(m):
+            return "used_elements %s, expected %d distinct indices" % (used, len(m))
+        if len(res) != len(exp):
+            return "script returned %d values, expected %d" % (len(res), len(exp))
+        for k, (g, e) in enumerate(zip(res, exp)):
+            if g != e and k not in mm:
+                return "script value %d is %s, last-write-wins gives %s" % (k, g, e)
+        for k in mm:
+            if res[k] != exp[k]:
+                return "min/max of the flattened sparse vector is %s, got %s" % (exp[k], res[k])
+        return None
     if op in ("sv", "svb"):
         w = max(p["b"], 1)
         dense = [[Fraction(0)] * w for _ in range(p["size"])]
@@ -531,6 +631,9 @@ def nontrivial(case):
         p = parse_case(case)
     except Exception:
         return False
+    if p["op"] == "svs":
+        idx = [st[1] for st in p["steps"] if st[0] == "w"]
+        return len(idx) >= 2 and (len(set(idx)) < len(idx) or idx != sorted(idx))
     if p["op"] in ("sv", "svb"):
         idx = [w[0] for w in p["writes"]]
         return len(idx) >= 2 and (len(set(idx)) < len(idx) or idx != sorted(idx))
@@ -549,8 +652,16 @@ def describe(case):
     except Exception:
         return keys
     keys.append("class:" + classify(case))
+    if p["op"] == "svs":
+        nwr = sum(1 for st in p["steps"] if st[0] == "w")
+        keys.append("sparse-script:" + ("realloc" if nwr > min(p["size"], 1000) else "no-realloc"))
+        if p["size"] > 1000:
+            keys.append("sparse-script:size>1000")
+        return keys
     if p["op"] in ("sv", "svb"):
         keys.append("sparse:" + p["sub"])
+        if len(p["writes"]) > min(p["size"], 1000):
+            keys.append("sparse:realloc")
         return keys
     keys.append("alias:" + p["pat"] + ("/clone" if p["cl"] and len(set(p["pat"])) < len(p["pat"]) else ""))
     keys.append("shape:" + p["shape"])
@@ -564,7 +675,7 @@ def describe(case):
 def signature(case, out, why):
     kind = classify(case)
     t = case.split()
-    if kind == "probe1":
+    if kind == "probe1" and why and ("of the flattened sparse vector" in why or is_abnormal(out)):
         return "sparse-minmax-scans-size-entries"
     if kind == "probe2":
         return "minmax-empty-component"
@@ -574,18 +685,16 @@ def signature(case, out, why):
 def canon(out):
     if out.startswith("ABORT"):
         return "ABORT"
+    if out == "SIGNAL:11" or (out.startswith("EXC:") and "out_of_range" in out):
+        return "UNDEF"      # null / out-of-range array access: the model says "no defined result"
     return out
 
 
 def model_filter(case):
-    # compare with the model on every defined input; the defect probes and undefined inputs are judged by
-    # the oracle only (the model says UNDEF / UNMODELLED there)
-    k = classify(case)
-    if k == "main":
-        return True
-    if k == "undefined":
-        return case.split()[0] == "cinv"
-    return False
+    # the model is compared on every input: it says UNDEF where the code reads a null / out-of-range array
+    # (min/max on an empty (sub-)vector) and is the code *as it is* for the sparse min/max members (the difference
+    # to their specification is the theorem C04.sparse_max_abs_as_coded_differs)
+    return True
 
 
 def main(argv):
